@@ -352,7 +352,12 @@ def _(self: Obj("Survey", entity_features=Opt[List[str]], namespaces=Opt[str])) 
                     "xmlns:entities" not in result))
     # C11: each `prefix=uri` token of the namespaces setting is declared with its URI (quotes removed); nothing else is added
     # (when a prefix is declared twice the property does not say which wins: any of its declarations is accepted)
-    ensures(all(implies(("xmlns:" + p) not in STD_NSMAP, result.get("xmlns:" + p) in DeclaredUris(final_self.namespaces, p))
+    # (on an entity form the converter's own declaration of `entities` counts as one of them: it used to be appended to the
+    # setting itself, since the fix c16-entities-namespace-dump it is appended to a local copy)
+    ensures(all(implies(("xmlns:" + p) not in STD_NSMAP,
+                        result.get("xmlns:" + p) in DeclaredUris(final_self.namespaces, p)
+                        or (p == "entities" and bool(self.entity_features)
+                            and result.get("xmlns:" + p) == "http://www.opendatakit.org/xforms/entities"))
                 for p, u in FirstDeclarations(self.namespaces)))
     ensures(all(k in STD_NSMAP or k == "xmlns:entities" or DeclaresPrefix(self.namespaces, k[6:]) for k in result))
 
